@@ -336,6 +336,9 @@ func fuRunChild(ctx *core.Ctx, id, scen string, prefix []int) (*fuExec, string) 
 	case <-time.After(5 * time.Minute):
 		cmd.Process.Kill()
 		<-done
+		if core.Overloaded() {
+			return nil, "overloaded" // no verdict about termination on an overcommitted machine
+		}
 		return &fuExec{Obs: "HANG: the execution did not end within 5 minutes", Choices: prefix}, ""
 	}
 	if err != nil {
@@ -402,7 +405,18 @@ func fuUnits(id string) []core.Unit {
 					vio(r, lower(id)+".first_use", sc.name, fmt.Sprintf("fresh process, two callers at once, %s (choice sequence %v)", how, x.Choices), "the outputs of the two calls executed alone: "+clipS(want), clipS(got))
 				}
 			}
+			overloaded := func(terr string) bool {
+				if terr == "overloaded" {
+					r.Exhaustive = false
+					r.Caps = append(r.Caps, sc.name+": a child process did not finish within 5 minutes on an overcommitted machine (no verdict)")
+					return true
+				}
+				return false
+			}
 			base, terr := fuRunChild(ctx, id, sc.name, nil)
+			if overloaded(terr) {
+				return
+			}
 			if terr != "" {
 				r.ToolError = terr
 				return
@@ -410,6 +424,9 @@ func fuUnits(id string) []core.Unit {
 			judge(base, "default schedule")
 			// the same choice sequence in another fresh process must give the same execution
 			again, terr := fuRunChild(ctx, id, sc.name, base.Choices)
+			if overloaded(terr) {
+				return
+			}
 			if terr != "" {
 				r.ToolError = terr
 				return
@@ -461,6 +478,9 @@ func fuUnits(id string) []core.Unit {
 					x, terr := fuRunChild(ctx, id, sc.name, sd.prefix)
 					mu.Lock()
 					defer mu.Unlock()
+					if overloaded(terr) {
+						return
+					}
 					if terr != "" {
 						r.ToolError = terr
 						return
